@@ -555,6 +555,12 @@ func driveC08(c *h.Ctx) error {
 		"all scripts of length <= 3 over a 7-letter alphabet + targeted races + random scripts + many-connection scenarios; " +
 		"non-trivial = at least one message sent; distinct by scenario JSON")
 	var scs []srvScenario
+	if m, _ := c.Replay["case"].(map[string]any); c.Replay == nil || (m != nil && m["leg"] == "http") {
+		c08HTTP(c)
+		if c.Replay != nil {
+			return c.WriteCases("cases_C08.v", "", 0)
+		}
+	}
 	if c.Replay != nil {
 		sc, ok := srvReplayScenario(c)
 		if !ok {
